@@ -25,15 +25,24 @@ type Timer struct {
 
 type timerHeap []*Timer
 
+//go:norace
 func (h timerHeap) Len() int { return len(h) }
+
+//go:norace
 func (h timerHeap) Less(i, j int) bool {
 	if h[i].at != h[j].at {
 		return h[i].at < h[j].at
 	}
 	return h[i].seq < h[j].seq
 }
-func (h timerHeap) Swap(i, j int)       { h[i], h[j] = h[j], h[i]; h[i].idx = i; h[j].idx = j }
+
+//go:norace
+func (h timerHeap) Swap(i, j int) { h[i], h[j] = h[j], h[i]; h[i].idx = i; h[j].idx = j }
+
+//go:norace
 func (h *timerHeap) Push(x interface{}) { t := x.(*Timer); t.idx = len(*h); *h = append(*h, t) }
+
+//go:norace
 func (h *timerHeap) Pop() interface{} {
 	old := *h
 	n := len(old)
@@ -45,8 +54,21 @@ func (h *timerHeap) Pop() interface{} {
 }
 
 // Clock is the simulated clock. One global instance (C) is used by the facades; ResetClock starts a new run.
+// hiddenMutex is a mutex whose acquire/release the race detector does not see. The clock is shared by every task of
+// a run; if its lock were visible, two tasks that merely created or stopped a timer (every context.WithTimeout does)
+// would count as synchronised with each other and genuine races between them would go unreported. The functions of
+// this file are excluded from race instrumentation for the same reason (the clock's own fields are only ever touched
+// under the lock).
+type hiddenMutex struct{ m sync.Mutex }
+
+//go:norace
+func (h *hiddenMutex) Lock() { raceDisable(); h.m.Lock(); raceEnable() }
+
+//go:norace
+func (h *hiddenMutex) Unlock() { raceDisable(); h.m.Unlock(); raceEnable() }
+
 type Clock struct {
-	mu     sync.Mutex
+	mu     hiddenMutex
 	now    time.Duration
 	seq    uint64
 	timers timerHeap
@@ -55,6 +77,7 @@ type Clock struct {
 
 var C = &Clock{}
 
+//go:norace
 func ResetClock() {
 	C.mu.Lock()
 	C.now = 0
@@ -65,10 +88,14 @@ func ResetClock() {
 }
 
 // SetSkew installs a function returning the offset to add to Now() for the current caller (e.g. per node).
+//
+//go:norace
 func (c *Clock) SetSkew(f func() time.Duration) { c.mu.Lock(); c.skew = f; c.mu.Unlock() }
 
+//go:norace
 func (c *Clock) Elapsed() time.Duration { c.mu.Lock(); defer c.mu.Unlock(); return c.now }
 
+//go:norace
 func (c *Clock) Now() time.Time {
 	c.mu.Lock()
 	d := c.now
@@ -81,8 +108,11 @@ func (c *Clock) Now() time.Time {
 }
 
 // NowTrue ignores skew.
+//
+//go:norace
 func (c *Clock) NowTrue() time.Time { c.mu.Lock(); defer c.mu.Unlock(); return Epoch.Add(c.now) }
 
+//go:norace
 func (c *Clock) AfterFunc(d time.Duration, period time.Duration, fn func()) *Timer {
 	if d < 0 {
 		d = 0
@@ -95,6 +125,7 @@ func (c *Clock) AfterFunc(d time.Duration, period time.Duration, fn func()) *Tim
 	return t
 }
 
+//go:norace
 func (c *Clock) Stop(t *Timer) bool {
 	c.mu.Lock()
 	defer c.mu.Unlock()
@@ -107,6 +138,7 @@ func (c *Clock) Stop(t *Timer) bool {
 	return true
 }
 
+//go:norace
 func (c *Clock) Reset(t *Timer, d time.Duration) bool {
 	c.mu.Lock()
 	defer c.mu.Unlock()
@@ -123,6 +155,8 @@ func (c *Clock) Reset(t *Timer, d time.Duration) bool {
 }
 
 // NextAt returns the instant of the earliest pending timer.
+//
+//go:norace
 func (c *Clock) NextAt() (time.Duration, bool) {
 	c.mu.Lock()
 	defer c.mu.Unlock()
@@ -133,10 +167,14 @@ func (c *Clock) NextAt() (time.Duration, bool) {
 }
 
 // Pending is the number of pending timers.
+//
+//go:norace
 func (c *Clock) Pending() int { c.mu.Lock(); defer c.mu.Unlock(); return len(c.timers) }
 
 // FireNext advances the clock to the earliest timer (if it is not after limit) and runs it. Returns false if
 // there was none within the limit; in that case the clock is moved to limit.
+//
+//go:norace
 func (c *Clock) FireNext(limit time.Duration) bool {
 	c.mu.Lock()
 	if len(c.timers) == 0 || c.timers[0].at > limit {
@@ -163,6 +201,8 @@ func (c *Clock) FireNext(limit time.Duration) bool {
 }
 
 // AdvanceTo runs every timer due up to and including instant d, then sets the clock to d.
+//
+//go:norace
 func (c *Clock) AdvanceTo(d time.Duration) {
 	for c.FireNext(d) {
 	}
@@ -170,6 +210,8 @@ func (c *Clock) AdvanceTo(d time.Duration) {
 
 // Jump moves the clock forward by d without firing the timers in between one by one in order first; due timers
 // then fire at the new instant (models a clock jump as seen by the process).
+//
+//go:norace
 func (c *Clock) Jump(d time.Duration) {
 	c.mu.Lock()
 	c.now += d
